@@ -1452,7 +1452,12 @@ fn collect_clause_handles(clause: &MutationClause, out: &mut BTreeSet<String>) {
             collect_facets_handles(&c.set_facets, out);
             collect_edges_handles(c.set_structural.as_ref(), out);
         }
-        MutationClause::EnsureProposition(_) => {}
+        MutationClause::EnsureProposition(c) => {
+            // A `?name` endpoint of a tuple being created is a local handle
+            // (the engine resolves it as one), so it must be bound like any other.
+            collect_endpoint_handles(&c.subject, out);
+            collect_endpoint_handles(&c.object, out);
+        }
         MutationClause::Update(c) => {
             element(&c.target);
             for action in &c.actions {
@@ -1495,6 +1500,21 @@ fn collect_clause_handles(clause: &MutationClause, out: &mut BTreeSet<String>) {
             element(&c.source);
             element(&c.into);
         }
+    }
+}
+
+fn collect_endpoint_handles(term: &Term, out: &mut BTreeSet<String>) {
+    match term {
+        Term::Variable(name) => {
+            out.insert(name.clone());
+        }
+        Term::Proposition(inner) => {
+            if let PropositionMatcher::Tuple(triple) = inner.as_ref() {
+                collect_endpoint_handles(&triple.subject, out);
+                collect_endpoint_handles(&triple.object, out);
+            }
+        }
+        Term::Param(_) | Term::Literal(_) | Term::Match(_) => {}
     }
 }
 
